@@ -286,9 +286,11 @@ def obligations(tier):
     fcs = {"req": [3, 6, 16, 7, 0x55, 0x83], "rsp": [3, 6, 7, 0x83]}
     if tier != "quick":
         fcs = {"req": [1, 3, 5, 6, 15, 16, 22, 23, 8, 43, 0x55, 0x83], "rsp": [1, 3, 5, 6, 16, 22, 23, 8, 0x55, 0x83]}
-    lens = {"rtu": [8, 9] if tier == "quick" else [5, 7, 8, 9, 10, 11], "binary": [10] if tier == "quick" else [9, 10, 11, 12],
+    lens = {"rtu": [7, 8, 9] if tier == "quick" else [5, 7, 8, 9, 10, 11], "binary": [10] if tier == "quick" else [9, 10, 11, 12],
             "tcp": [9, 12] if tier == "quick" else [2, 8, 9, 12, 14], "ascii": [11, 17] if tier == "quick" else [11, 13, 17, 19]}
-    contracts = {"tcp": (), "rtu": ("crc",), "binary": ("crc",), "ascii": ("lrc",)}
+    # short buffers: the CRC is encoded exactly (bit-vector definition), so that a changed acceptance test that is only
+    # equivalent to the CRC comparison by CRC algebra (e.g. "remainder over the whole frame is zero") is still decided
+    contracts = {"tcp": (), "rtu": ("crc-exact",), "binary": ("crc-exact",), "ascii": ("lrc",)}
     lem = {"tcp": (), "rtu": ("K1",), "binary": ("K1",), "ascii": ("K2",)}
     for framing in ("rtu", "binary", "ascii", "tcp"):
         for d in ("req", "rsp"):
